@@ -285,7 +285,10 @@ def name_battery(repo, seed=0, n=40):
                 continue
             sb.run('trash-put', ['--trash-dir', td, '--', os.fsdecode(p)], cwd=work)
             lst = sb.run('trash-list', ['--trash-dir', td])
-            if os.fsdecode(bs) not in lst['stdout'] and b'\n' not in bs:
+            # (the harness reads stdout in text mode: '\r' is translated, so
+            # names with a carriage return are compared on the restore side only)
+            if os.fsdecode(bs) not in lst['stdout'] and b'\n' not in bs \
+                    and b'\r' not in bs:
                 try:
                     bs.decode('utf-8')
                     problems.append('%r: trash-list does not show it: %r' % (
